@@ -121,7 +121,14 @@ def _ext(p, q):
     """q is p or an extension of p"""
     if not q.startswith(p):
         return False
-    return len(q) == len(p) or q[len(p)] in '-.['
+    return len(q) == len(p) or q[len(p)] in '-.[#'
+
+
+def _root(q):
+    i = 0
+    while i < len(q) and q[i] not in '-.[#':
+        i += 1
+    return q[:i]
 
 
 def join_states(sts):
@@ -222,11 +229,50 @@ class World:
         self.ret_kind = {}          # fname -> enumerator name | ('param', i)
         self.gwrites = {}           # fname -> set of globals assigned directly
         self.assumed_nonnull = {}   # (unit, function) -> set of type-rooted paths assumed non-null
+        self.fact_summ = {}         # fname -> {'T': [disjunct], 'F': [...], 'A': [...]}; disjunct = (nul facts, vs facts) keyed by (param idx, suffix)
         self.enum_universe = {}
         for u in self.units.values():
             for en, names in u.enum_types.items():
                 self.enum_universe.setdefault(en, frozenset(names))
         self._scan_gwrites()
+        self.recursive = self._recursive_functions()
+
+    def _recursive_functions(self):
+        """functions on a cycle of the direct call graph (no return-fact summaries for those)"""
+        g = {}
+        for un, u in self.units.items():
+            for f, fd in u.functions.items():
+                g.setdefault(f, set()).update(c.callee() for c in fd.calls() if c.callee() in self.fn_unit)
+        index, low, onst, st, out = {}, {}, set(), [], set()
+        counter = [0]
+        import sys
+        sys.setrecursionlimit(max(10000, sys.getrecursionlimit()))
+
+        def strong(v):
+            index[v] = low[v] = counter[0]
+            counter[0] += 1
+            st.append(v)
+            onst.add(v)
+            for w in g.get(v, ()):
+                if w not in index:
+                    strong(w)
+                    low[v] = min(low[v], low[w])
+                elif w in onst:
+                    low[v] = min(low[v], index[w])
+            if low[v] == index[v]:
+                comp = []
+                while True:
+                    w = st.pop()
+                    onst.discard(w)
+                    comp.append(w)
+                    if w == v:
+                        break
+                if len(comp) > 1 or v in g.get(v, ()):
+                    out.update(comp)
+        for v in list(g):
+            if v not in index:
+                strong(v)
+        return out
 
     def resolve(self, unit, fname):
         """unit that defines fname as seen from `unit`"""
@@ -284,6 +330,7 @@ class Engine:
         self.undecided = []
         self.exit_states = []
         self.keep_exit_states = bool(self.hooks.get('keep_exit_states'))
+        self.ret_facts = []    # (const value or None, state) per normal return
 
     # ---- paths ---------------------------------------------------------------
     def root_path(self, n):
@@ -527,7 +574,7 @@ class Engine:
         rec = rec_of(pointee(e.inner[0].type or ''))
         if rec in ('Node', 'Type') and bv.path is not None:
             kf = S.vs.get(bv.path + '->kind')
-            self.reads.append((e, rec, e.name, kf, bv.path, self.context(S)))
+            self.reads.append((e, rec, e.name, kf, bv.path, v.nul))
 
     def e_UnaryOperator(self, e, S):
         op = e.opcode
@@ -797,6 +844,17 @@ class Engine:
                             s.nul[v.addr_of] = ('U', None)
                 for g in self.W.gwrites.get(c, ()):
                     s.kill('G:' + g)
+                summ = self.W.fact_summ.get(c) if self.W.resolve(self.u, c) is not None else None
+                if summ is not None:
+                    done = False
+                    for tag, const in (('T', 1), ('F', 0), ('A', None)):
+                        for d in summ.get(tag, ()):
+                            s3 = self.apply_summary(s.copy(), d, vals)
+                            if s3 is not None:
+                                out.append((s3, Val(const=const)))
+                                done = True
+                    if done:
+                        continue
                 r = Val()
                 src = self.W.nullable_rets.get(c)
                 if src is not None and is_ptr_type(e.type):
@@ -816,6 +874,35 @@ class Engine:
                         r.nul = 'NN'
                 out.append((s, r))
         return out
+
+    def apply_summary(self, S, d, vals):
+        """add the callee's return facts (about what its parameters point to) to S; None if contradictory"""
+        for (i, suf), tag in d[0]:
+            if i >= len(vals) or vals[i].path is None:
+                continue
+            q = vals[i].path + suf
+            cur = S.nul.get(q)
+            if cur is not None and cur[0] in ('NN', 'NULL') and cur[0] != tag:
+                return None
+            S.nul[q] = (tag, cur[1] if cur else None)
+        for (i, suf), f in d[1]:
+            if i >= len(vals) or vals[i].path is None:
+                continue
+            q = vals[i].path + suf
+            cur = S.vs.get(q)
+            if cur is None:
+                self.set_vs(S, q, f)
+            elif cur[0] == 'in':
+                r = cur[1] & f[1]
+                if not r:
+                    return None
+                self.set_vs(S, q, ('in', r))
+            else:
+                r = f[1] - cur[1]
+                if not r:
+                    return None
+                self.set_vs(S, q, ('in', r))
+        return S
 
     # ---- conditions --------------------------------------------------------------
     def cond(self, e, S):
@@ -862,6 +949,10 @@ class Engine:
                         r = {'<': va.const < vb.const, '>': va.const > vb.const, '<=': va.const <= vb.const, '>=': va.const >= vb.const}[op]
                         (T if r else F).append(s)
                     else:
+                        # relational constraint on a path: remember that its value is no longer "any value of its type"
+                        for v in (va, vb):
+                            if v.path is not None:
+                                s.vs[v.path + '#rel'] = ('in', frozenset([1]))
                         T.append(s)
                         F.append(s.copy())
                 return T, F
@@ -1145,10 +1236,12 @@ class Engine:
                         else:
                             rk = '?'
                     self.returns.append((v.nul, v.src, rk if rk is not None else '?'))
+                    self.ret_facts.append((v.const if v.path is None else None, s2))
                     if self.keep_exit_states:
                         self.exit_states.append(s2)
             else:
                 self.returns.append((None, None, None))
+                self.ret_facts.append((None, S))
                 if self.keep_exit_states:
                     self.exit_states.append(S)
         self.exited = True
@@ -1283,9 +1376,55 @@ class Engine:
         out = self.exec(body, [S])
         for S in out:
             self.returns.append((None, None, None))
+            self.ret_facts.append((None, S))
             if self.keep_exit_states:
                 self.exit_states.append(S)
         return self
+
+    def summary(self):
+        """facts about the objects reachable from the parameters that hold when the function returns
+        (split by a constant 0/1 result for predicates); None if nothing is learned"""
+        roots = {}
+        for i, p in enumerate(self.params):
+            r = '%s@%s' % (p.name, p.id)
+            if r not in self.assigned_params:
+                roots[r] = i
+
+        def disj(S):
+            nul, vs = {}, {}
+            for q, v in S.nul.items():
+                r = _root(q)
+                if r in roots and q != r and v[0] in ('NN', 'NULL'):
+                    nul[(roots[r], q[len(r):])] = v[0]
+            for q, f in S.vs.items():
+                r = _root(q)
+                if r in roots and q != r and f[0] == 'in' and all(isinstance(x, (str, int)) for x in f[1]) and '#' not in q:
+                    vs[(roots[r], q[len(r):])] = f
+            return (frozenset(nul.items()), frozenset(vs.items()))
+        groups = {'T': set(), 'F': set(), 'A': set()}
+        pred = bool(self.ret_facts) and all(c in (0, 1) for c, S in self.ret_facts)
+        for c, S in self.ret_facts:
+            d = disj(S)
+            if pred:
+                groups['T' if c == 1 else 'F'].add(d)
+            else:
+                groups['A'].add(d)
+        out = {}
+        for g, ds in groups.items():
+            ds = list(ds)
+            if len(ds) > 6:
+                # keep only what all disjuncts agree on
+                n = frozenset.intersection(*[d[0] for d in ds])
+                v = frozenset.intersection(*[d[1] for d in ds])
+                ds = [(n, v)]
+            out[g] = sorted(ds, key=repr)
+        if not pred:
+            if not out['A'] or all(not d[0] and not d[1] for d in out['A']):
+                return None
+            return {'A': out['A']}
+        if all(not d[0] and not d[1] for d in out['T'] + out['F']):
+            return None
+        return {'T': out['T'], 'F': out['F']}
 
 
 PROPAGATING = ('null', 'param', 'ret', 'arg', 'global')
@@ -1322,6 +1461,13 @@ def solve(W, max_rounds=8):
                             W.nullable_rets[f] = ('ret', 'the result of %s() may be NULL' % f)
                             changed = True
                             break
+                sm = eng.summary() if f not in W.recursive else None
+                if sm != W.fact_summ.get(f) and len(W.fn_unit.get(f, ())) == 1:
+                    if sm is None:
+                        W.fact_summ.pop(f, None)
+                    else:
+                        W.fact_summ[f] = sm
+                    changed = True
                 if is_ptr_type(rt):
                     rks = set(rk for nul, src, rk in eng.returns if not (nul == 'NULL'))
                     if len(rks) == 1:
